@@ -29,7 +29,7 @@ ASSUMPTIONS = ["hash(int) of the sha256-derived value hashes does not depend on 
                "how many forced switches at how many distinct source lines were observed"]
 FLOORS = {"quick": {"hash_seeds": 6, "texts_per_seed": 5000, "tie_texts": 20, "cross_seed_comparisons": 30000,
                     "repeat_comparisons": 1000, "snapshot_rechecks": 500, "threaded_calls": 1000,
-                    "forced_switches": 1000, "distinct_switch_points": 100},
+                    "forced_switches": 1000, "distinct_switch_points": 100, "cold_start_calls": 200},
           "thorough": {"hash_seeds": 32, "texts_per_seed": 5000, "cross_seed_comparisons": 200000,
                        "threaded_calls": 20000, "forced_switches": 50000}}
 SEEDS = {"quick": [0, 1, 2, 3, 4, 5, 6, 7], "thorough": list(range(40))}
@@ -47,6 +47,11 @@ def corpus(seed, n):
     from eyecite.tokenizers import EXTRACTORS
     rng = random.Random(f"c15-{seed}")
     texts = [(t, None) for t in TIES]
+    for nm in ("Jones", "Halper", "Twombly", "Roe"):
+        # identical plaintiff and defendant: two name fields compete for the same reference text
+        texts.append((f"{nm} v. {nm}, 1 U.S. 1 (1999). Later, {nm} at 5 was distinguished; {nm} at 7.", None))
+        texts.append((f"<p><em>{nm} v. {nm}</em>, 2 F.2d 2 (1950). In <i>{nm}</i> the court held; {nm} at 9.</p>",
+                      ["html", "all_whitespace"]))
     k = 0
     while k < n:
         e = EXTRACTORS[rng.randrange(len(EXTRACTORS))]
@@ -76,8 +81,8 @@ def plan(tier, seed):
     specs = [dict(part="seed", hashseed=k, env={"PYTHONHASHSEED": str(k)}, seed=seed, n=NCORP[tier])
              for k in SEEDS[tier]]
     specs += [dict(part="repeat", seed=seed, n=NCORP[tier], i=i, env={"PYTHONHASHSEED": str(100 + i)}) for i in range(2)]
-    nthr = 2 if tier == "quick" else 8
-    specs += [dict(part="threads", seed=seed, i=i, calls=(90 if tier == "quick" else 400),
+    nthr = 4 if tier == "quick" else 12
+    specs += [dict(part="threads", seed=seed, i=i, calls=(50 if tier == "quick" else 300),
                    env={"PYTHONHASHSEED": str(200 + i)}) for i in range(nthr)]
     return specs
 
@@ -184,7 +189,33 @@ def run_threads(spec, rec):
     import eyecite.models
     import eyecite.tokenizers
     toks = {"ac": tok.get("ac"), "hs": tok.get("ac")}
-    texts = corpus(spec["seed"], 30)[:120]
+    texts = corpus(spec["seed"], 30)[:128]
+    # Phase 1, COLD START: the very first calls of this fresh interpreter are made concurrently (lazily
+    # initialised module state - compiled patterns, lookup tables - is filled under contention); the
+    # sequential baseline is computed afterwards and compared with what the cold threads returned.
+    cold = [(f"Foo v. Bar, {k + 1} U.S. {k + 2} ({c} 1999). Id. at {k + 3}.", None)
+            for k, c in enumerate(["D. Mass.", "Wyo.", "Vt.", "4th Cir.", "Pa.", "S.D.N.Y.", "Tex. App.", "Cal. Ct. App."])]
+    cold_results = {}
+    barrier = threading.Barrier(8)
+
+    def cold_work(k):
+        barrier.wait()
+        out = []
+        for j in range(len(cold)):
+            t, st = cold[(j + k) % len(cold)]
+            out.append(((j + k) % len(cold), evaluate(t, st, OPTS[0], toks)[1]))
+        cold_results[k] = out
+
+    cths = [threading.Thread(target=cold_work, args=(k,)) for k in range(8)]
+    [t.start() for t in cths]
+    [t.join() for t in cths]
+    cold_base = [evaluate(t, st, OPTS[0], toks)[1] for t, st in cold]
+    for k, out in cold_results.items():
+        for j, got in out:
+            rec.count("cold_start_calls")
+            if got != cold_base[j]:
+                rec.violation("C15.cold_start_thread_result_differs", dict(text=cold[j][0], steps=None),
+                              observed=got[:3], expected=cold_base[j][:3])
     base = {}
     for tid, (text, steps) in enumerate(texts):
         base[tid] = evaluate(text, steps, OPTS[0], toks)[1]
@@ -276,7 +307,7 @@ def finalize(agg, results):
         vals = {s: per_seed[s].get(key, {}).get("h") for s in seeds}
         ncmp += len(seeds) - 1
         tid = int(key.split("|")[0])
-        if tid < len(TIES) and key.endswith("|0"):
+        if tid < len(TIES) + 8 and key.endswith("|0"):
             ties += 1
         if ref[key]["n"] > 0:
             agg["distinct"].add(core.h64(["c15", key]))
